@@ -74,3 +74,14 @@ package fasthttp
 //   A chunked body counts as finished (chunkedDone: drained(), hasUnreadBodyStream()) only once the trailer section after
 //   the last chunk was read too -- until then bytes of this message are still on the wire.
 //@   ensures[done-only-after-the-trailer] rs.chunkedDone && !old(rs.chunkedDone) ==> trailerRead
+
+// releaseRequestStream (C34, C02): a stream goes back to the pool with no trace of the body it was reading -- the next
+// body read through it starts at byte 0, outside any chunk, not finished; Read's preconditions hold for it again.
+//@ func releaseRequestStream
+//@   property C34 C02 C11
+//@   mode skeleton
+//@   on call sync.Pool.Put:
+//@     nohavoc
+//@   end
+//@   ensures[no-body-state-left] rs.totalBytesRead == 0 && rs.chunkLeft == 0 && !rs.chunkedDone
+//@   ensures[no-reader-left] rs.reader == nil && rs.prefetchedBytes == nil && rs.header == nil
